@@ -26,7 +26,11 @@ func init() {
 			vsRunLane(t, r, "enum", true, &f, c20CensusOut)
 			return
 		}
-		vsRunLane(t, r, "faults", true, nil, nil)
+		if r.T.Intn(4, "extended-lane") == 0 {
+			vsRunLane(t, r, "faults+extended", true, nil, nil)
+		} else {
+			vsRunLane(t, r, "faults", true, nil, nil)
+		}
 	}
 }
 
